@@ -1917,13 +1917,11 @@ func c03LinkOrder(rc *RuleCtx) {
 		if !ok {
 			return
 		}
-		if fn := calleeFunc(c); fn != nil {
-			switch nm(fn) {
-			case "searchNode":
-				walks = append(walks, c)
-			case "checkPermission":
-				perm = c
-			}
+		if fn := calleeFunc(c); fn != nil && nm(fn) == "searchNode" {
+			walks = append(walks, c)
+		}
+		if _, isPerm := asPermCheck(c); isPerm {
+			perm = c
 		}
 	})
 	if len(walks) < 2 || perm == nil {
